@@ -353,10 +353,6 @@ def check_hse(run, mods, wd, rnd, cov):
 # ---------------------------------------------------------------------------------------------
 # 2. safe_callable_names + pointless decision on modules
 
-FBODIES = [
-    [("ctl", "return")],                                         # placeholder, replaced by text below
-]
-
 FUNC_TEXTS = [
     "    return 1\n",
     "    return {h}()\n",
@@ -379,7 +375,7 @@ FUNC_TEXTS = [
     "    assert False\n",
     "    return print(1)\n",
 ]
-MOD_TAILS = ["", "f = 1\n", "h = f\n", "class A:\n    def __init__(self):\n        {b}\n",
+MOD_TAILS = ["", "f = 1\n", "h = f\n", "f = g\n", "class A:\n    def __init__(self):\n        {b}\n",
              "class A:\n    def __init__(self):\n        {b}\n    def m(self):\n        return f()\n",
              "class B:\n    pass\n", "class C:\n    def __new__(cls):\n        return f()\n    def __init__(self):\n        print(1)\n"]
 STMT_TAILS = ["f()\n", "h()\n", "A()\n", "x\n", "'s'\n", "print(1)\n", "_ = f()\n", "[f() for x in y]\n",
@@ -532,6 +528,22 @@ class _Exhausted(BaseException):
     pass
 
 
+class _Diverge(BaseException):
+    pass
+
+
+def _step_limit(limit):
+    n = [0]
+
+    def tr(frame, event, arg):
+        if event == "line":
+            n[0] += 1
+            if n[0] > limit:
+                raise _Diverge()
+        return tr
+    return tr
+
+
 class _Stop(Exception):
     """raised by `raise E` in generated statements"""
 
@@ -626,23 +638,32 @@ def make_world_classes(w: World):
             return U()
 
     class Env(dict):
-        def __init__(self, stubs):
+        """module namespace: every lookup gives the stub of that name (so that a callee is always identified
+        by its name); in `real` mode stored values are kept, so that defined functions really run"""
+
+        def __init__(self, stubs, g=None, real=False):
             super().__init__()
-            self.stubs = stubs
+            self.stubs, self.g, self.real, self.vals = stubs, g, real, {}
 
         def __getitem__(self, k):
             if k == "E":
                 return _Stop
+            if self.real and k in self.vals:
+                return self.vals[k]
             return self.stubs[k] if k in self.stubs else Stub(k)
 
         def __setitem__(self, k, v):
             if k != "__doc__":
                 w.log.append(("bind", k))
+            if self.real:
+                self.vals[k] = v
+                if self.g is not None:
+                    self.g[k] = v
 
     return U, Stub, Env
 
 
-def explore_src(src, names, ho):
+def explore_src(src, names, ho, real=False):
     """all behaviours (trace, outcome) over every script of draws in {0,1,2} of length <= L_DRAWS"""
     import warnings
     try:
@@ -662,15 +683,26 @@ def explore_src(src, names, ho):
         g["E"] = _Stop
         out = "N"
         runs += 1
+        import sys
         try:
-            exec(code, g, Env(stubs))
+            if real:
+                sys.settrace(_step_limit(3000))     # defined functions really run: `while True: pass`
+            try:
+                exec(code, g, Env(stubs, g, real))
+            finally:
+                if real:
+                    sys.settrace(None)
+        except _Diverge:
+            partial = True
+            continue
         except _Exhausted:
             for v in (0, 1, 2):
                 stack.append(script + [v])
             continue
         except _Stop:
             out = "raise"
-        except (TypeError, AttributeError, ValueError, KeyError, IndexError, NameError):
+        except (TypeError, AttributeError, ValueError, KeyError, IndexError, NameError, RecursionError,
+                AssertionError, ZeroDivisionError):
             partial = True
             errors += 1
             continue
@@ -1056,6 +1088,41 @@ def check_end_to_end(run, mods, wd, rnd, cov):
     return fails
 
 
+def search_failing_input(mods, src):
+    """the property's own oracle on one source text: run delete_pointless_statements, execute before / after
+    (defined functions really run) under every script; returns a record when the observable behaviours differ"""
+    fixes, constants, core = mods["fixes"], mods["constants"], mods["core"]
+    SAFE = frozenset(constants.SAFE_CALLABLES)
+    if not src.endswith("\n"):
+        src += "\n"
+    src = src + "after()\n"
+    core.parse.cache_clear()
+    with common.quiet():
+        try:
+            out = fixes.delete_pointless_statements(src)
+        except Exception:  # noqa
+            return None
+    if out == src:
+        return None
+    try:
+        names = sorted({n.id for n in ast.walk(ast.parse(src)) if isinstance(n, ast.Name)} | {"after"})
+    except SyntaxError:
+        return None
+    global L_DRAWS
+    saved, L_DRAWS = L_DRAWS, 4
+    try:
+        b1, b2 = explore_src(src, names, HO, real=True), explore_src(out, names, HO, real=True)
+    finally:
+        L_DRAWS = saved
+    if b1 is None or b2 is None or not b1[0]:
+        return None
+    o1, o2 = observable(b1[0], SAFE), observable(b2[0], SAFE)
+    if o1 != o2:
+        return {"case": src, "after": out, "only_before": sorted(map(repr, o1 - o2))[:3],
+                "only_after": sorted(map(repr, o2 - o1))[:3], "sigs": sorted(finding_sig(src))}
+    return None
+
+
 # ---------------------------------------------------------------------------------------------
 # witnesses of the repaired defects (must pass) and of the listed findings (must still fail)
 
@@ -1140,11 +1207,25 @@ def check(run, mods, wd, rnd):
         run.violation({"kind": "property-oracle", "site": "fixes.delete_pointless_statements", **r,
                        "explanation": "executing the program before and after delete_pointless_statements under every "
                                       "script of the unknowns gives different observable behaviours"}, True)
-    if not real_fail:
-        for d in (d1 + d2)[:5]:
-            run.violation({"kind": "correspondence", "kernel": "K5 EffectModel", **d,
-                           "explanation": "model and implementation disagree; the end-to-end oracle found no failing "
-                                          "input among its cases"}, False)
+    if not real_fail and (d1 or d2):
+        # failing-input search: the property's oracle on the disagreeing cases themselves
+        found = []
+        for d in (d1 + d2)[:60]:
+            if "case" in d and not d.get("problem"):
+                r = search_failing_input(mods, d["case"])
+                if r and not (r["sigs"] and all(s in kf for s in r["sigs"])):
+                    found.append({**r, "disagreement": {k: d[k] for k in d if k != "case"}})
+                    if len(found) >= 3:
+                        break
+        for r in found:
+            run.violation({"kind": "property-oracle", "site": "fixes.delete_pointless_statements", **r,
+                           "explanation": "found from a model/implementation disagreement: the program behaves "
+                                          "differently after delete_pointless_statements"}, True)
+        if not found:
+            for d in (d1 + d2)[:5]:
+                run.violation({"kind": "correspondence", "kernel": "K5 EffectModel", **d,
+                               "explanation": "model and implementation disagree; the end-to-end oracle found no "
+                                              "failing input among its cases or from the disagreeing cases"}, False)
     for sb in sem_bad[:3]:
         run.violation({"kind": "semantics-validation", "kernel": "K5 EffectModel.eval/exec", **sb,
                        "explanation": "CPython exhibits a behaviour the reference semantics excludes"}, False)
